@@ -7,7 +7,7 @@ import sys
 
 from hypothesis import strategies as st
 
-from vf import gens, refs
+from vf import forms, gens, refs
 from vf.core import Result, lib
 
 ID = "C06"
@@ -50,9 +50,9 @@ def strategy_(draw):
         else:
             tpc = 120.1 + 429 * sg - 62.9 * sg**2
             ppc = 671.1 - 14 * sg - 34.3 * sg**2
-        return {"src": "sutton", "T": T, "p": p, "tpc": tpc - 459.67, "ppc": ppc}
+        return {"src": "sutton", "T": T, "p": p, "tpc": tpc - 459.67, "ppc": ppc, "T_form": draw(forms.scalar_form()), "p_form": draw(forms.scalar_form())}
     s = draw(gens.gas_state())
-    return {"src": "rectangle", "T": s["T"], "p": s["p"], "tpc": s["tpc"], "ppc": s["ppc"]}
+    return {"src": "rectangle", "T": s["T"], "p": s["p"], "tpc": s["tpc"], "ppc": s["ppc"], "T_form": draw(forms.scalar_form()), "p_form": draw(forms.scalar_form())}
 
 
 def strategy(tier):
@@ -154,6 +154,17 @@ def check_case(case) -> Result:
         zi = float(lib("z_factor_DAK(int pressure)", G.z_factor_DAK, T, pi_, tpc, ppc))
         zf = float(lib("z_factor_DAK", G.z_factor_DAK, T, float(pi_), tpc, ppc))
         res.check("C06/input-dtype-irrelevant", abs(zi - zf), 1e-12, f"Z(int {pi_})={zi!r} vs Z(float)={zf!r};")
+    # ... and so for every other scalar form (numpy scalars of either kind, 0-d arrays, Python ints) of T and p
+    tf, pf = case.get("T_form", "float"), case.get("p_form", "float")
+    if (tf, pf) != ("float", "float"):
+        Tq, pq = forms.representable(T, tf), forms.representable(p, pf)
+        trq, prq = (Tq + 459.67) / (tpc + 459.67), pq / ppc
+        if pq > 0 and 1.05 <= trq <= 3.0 and 0 < prq <= 30.0:
+            zq = float(lib(f"z_factor_DAK(T as {tf}, p as {pf})", G.z_factor_DAK, forms.scalar(Tq, tf), forms.scalar(pq, pf), tpc, ppc))
+            zf = float(lib("z_factor_DAK", G.z_factor_DAK, Tq, pq, tpc, ppc))
+            tolq = 1e-5 if "np.float32" in (tf, pf) else 1e-12
+            res.check("C06/input-dtype-irrelevant", abs(zq - zf), tolq, f"Z(T={Tq!r} as {tf}, p={pq!r} as {pf})={zq!r} vs the same values as Python floats {zf!r};")
+            res.labels["scalar_forms"] = "non-float"
     # (iv) low-pressure limit
     if pr <= 1e-2:
         res.check("C06/low-pressure-limit", abs(z - 1.0), 0.6 * pr, f"|Z-1| with Z={z!r} at p_r={pr!r} T_r={tr!r};")
